@@ -54,3 +54,6 @@ Definition unflatten3 {A} (C O D : nat) (flat : list A) : list (list (list A)) :
   map (chunk O D) (chunk C (O * D) flat).
 Definition export_array_eval (C O D : nat) (flat : list Z) : list Z := render_rows (rows_array (unflatten3 C O D flat)).
 Definition widen_eval (bits : list Z) : list Z := map widen_bits bits.
+(* header of the written file as codes (0 = "chain", 1 = "observation", 2+j = "dim_j") *)
+Definition header_eval (parquet_tensor : bool) (D : nat) : list Z :=
+  map Z.of_nat (if parquet_tensor then header_codes_parquet_tensor D else header_codes D).
